@@ -14,6 +14,7 @@ import MpirProofs.Lemmas.AliasShift2
 import MpirProofs.Lemmas.AliasGcd
 import MpirProofs.Lemmas.AliasR2exp
 import MpirProofs.Lemmas.AliasIor
+import MpirProofs.Lemmas.AliasCfdivR
 namespace Mpir.AliasMem
 open Mpir
 
@@ -85,6 +86,22 @@ theorem tdiv_r_2exp_ptr_spec {s : St} (h : Inv s) {r u : Nat} (hr : r < s.nv) (h
 example : look2 (tdiv_r_2exp 0 0 70 exSt2) 1 = .ok [(12345, 4, 0)] := by decide
 example : look2 (tdiv_r_2exp 2 1 68 exSt2) 3 = .ok [(2 ^ 200 + 12345, 4, 0), (-(2 ^ 70 + 3), 2, 1), (-3, 1, 2)] := by decide
 example : look2 (tdiv_r_2exp 1 1 68 exSt2) 2 = .ok [(2 ^ 200 + 12345, 4, 0), (-3, 2, 1)] := by decide
+
+/-- mpz_cdiv_r_2exp (`dir = 1`) and mpz_fdiv_r_2exp (`dir = -1`) (mpz/cfdiv_r_2exp.c), `w = u` or separate: on the side that
+    truncates, `up = PTR (u)` fetched early (:57) stays valid because w is reallocated only when w ≠ u; on the side that
+    negates, w is reallocated to limb_cnt+1 limbs and `up` is fetched again (:109-111) — w may be u there.  The result is
+    the ceiling resp. floor remainder `u - 2^cnt * ⌈u / 2^cnt⌉` resp. `u - 2^cnt * ⌊u / 2^cnt⌋` (`DivZ.specR`). -/
+theorem cfdiv_r_2exp_ptr_spec {s : St} (h : Inv s) {w u : Nat} (hw : w < s.nv) (hu : u < s.nv) (cnt : Nat) (dir : Int)
+    (hdir : dir = 1 ∨ dir = -1) :
+    ∃ s', cfdiv_r_2exp w u cnt dir s = .ok s' ∧ Inv s' ∧ s'.nv = s.nv ∧
+      s'.value w = DivZ.specR dir (s.value u) ((2 ^ cnt : Nat) : Int) ∧
+      ∀ i, i < s.nv → i ≠ w → s'.value i = s.value i :=
+  cfdiv_r_2exp_ok h hw hu cnt dir hdir
+
+example : look2 (cdiv_r_2exp 0 0 70 exSt2) 1 = .ok [(12345 - 2 ^ 70, 4, 0)] := by decide
+example : look2 (fdiv_r_2exp 1 1 68 exSt2) 2 = .ok [(2 ^ 200 + 12345, 4, 0), (2 ^ 68 - 3, 2, 1)] := by decide
+example : look2 (cdiv_r_2exp 2 1 300 exSt2) 3 = .ok [(2 ^ 200 + 12345, 4, 0), (-(2 ^ 70 + 3), 2, 1), (-(2 ^ 70 + 3), 2, 4)] := by
+  decide
 
 /-! ## mpz_and, mpz_xor, mpz_com (and the plumbing shared with mpz_ior) -/
 
